@@ -6,11 +6,13 @@
 """
 IProxyParser implementation for version one of the PROXY protocol.
 """
+from socket import AF_INET, AF_INET6
 from typing import Tuple, Union
 
 from zope.interface import implementer
 
 from twisted.internet import address
+from twisted.internet.abstract import isIPAddress
 from . import _info, _interfaces
 from ._exceptions import (
     InvalidNetworkProtocol,
@@ -40,6 +42,8 @@ class V1Parser:
         UNKNOWN_PROTO,
     )
     NEWLINE = b"\r\n"
+    # The longest possible version one header, including the final CRLF.
+    MAX_LENGTH = 107
 
     def __init__(self) -> None:
         self.buffer = b""
@@ -62,7 +66,7 @@ class V1Parser:
             invalid PROXY header.
         """
         self.buffer += data
-        if len(self.buffer) > 107 and self.NEWLINE not in self.buffer:
+        if len(self.buffer) > self.MAX_LENGTH and self.NEWLINE not in self.buffer:
             raise InvalidProxyHeader()
         lines = (self.buffer).split(self.NEWLINE, 1)
         if not len(lines) > 1:
@@ -70,8 +74,43 @@ class V1Parser:
         self.buffer = b""
         remaining = lines.pop()
         header = lines.pop()
+        if len(header) + len(self.NEWLINE) > self.MAX_LENGTH:
+            # Too long, however many bytes arrived together with its CRLF.
+            raise InvalidProxyHeader()
         info = self.parse(header)
         return (info, remaining)
+
+    @staticmethod
+    def _parsePort(value: bytes) -> int:
+        """
+        Parse a port field: a decimal integer in the range 0..65535, without
+        sign or leading zeroes.
+
+        @raises InvalidProxyHeader: If C{value} is anything else.
+        """
+        if not value.isdigit() or len(value) > 5:
+            raise InvalidProxyHeader()
+        if len(value) > 1 and value.startswith(b"0"):
+            raise InvalidProxyHeader()
+        port = int(value)
+        if port > 65535:
+            raise InvalidProxyHeader()
+        return port
+
+    @staticmethod
+    def _parseAddress(value: bytes, family: int) -> str:
+        """
+        Parse an address field: the text form of an address of C{family}.
+
+        @raises InvalidProxyHeader: If C{value} is anything else.
+        """
+        try:
+            text = value.decode("ascii")
+        except UnicodeDecodeError:
+            raise InvalidProxyHeader()
+        if "%" in text or not isIPAddress(text, family):
+            raise InvalidProxyHeader()
+        return text
 
     @classmethod
     def parse(cls, line: bytes) -> _info.ProxyInfo:
@@ -107,8 +146,8 @@ class V1Parser:
         if proxyStr != cls.PROXYSTR:
             raise InvalidProxyHeader()
 
-        with convertError(ValueError, InvalidNetworkProtocol):
-            networkProtocol, line = line.split(b" ", 1)
+        # "PROXY UNKNOWN" alone is a complete header.
+        networkProtocol, _, line = line.partition(b" ")
 
         if networkProtocol not in cls.ALLOWED_NET_PROTOS:
             raise InvalidNetworkProtocol()
@@ -125,18 +164,35 @@ class V1Parser:
         with convertError(ValueError, MissingAddressData):
             sourcePort, line = line.split(b" ", 1)
 
-        with convertError(ValueError, MissingAddressData):
-            destPort = line.split(b" ")[0]
+        # Whatever follows the source port is the destination port: a further
+        # field makes it an invalid port.
+        destPort = line
 
         if networkProtocol == cls.TCP4_PROTO:
             return _info.ProxyInfo(
                 originalLine,
-                address.IPv4Address("TCP", sourceAddr.decode(), int(sourcePort)),
-                address.IPv4Address("TCP", destAddr.decode(), int(destPort)),
+                address.IPv4Address(
+                    "TCP",
+                    cls._parseAddress(sourceAddr, AF_INET),
+                    cls._parsePort(sourcePort),
+                ),
+                address.IPv4Address(
+                    "TCP",
+                    cls._parseAddress(destAddr, AF_INET),
+                    cls._parsePort(destPort),
+                ),
             )
 
         return _info.ProxyInfo(
             originalLine,
-            address.IPv6Address("TCP", sourceAddr.decode(), int(sourcePort)),
-            address.IPv6Address("TCP", destAddr.decode(), int(destPort)),
+            address.IPv6Address(
+                "TCP",
+                cls._parseAddress(sourceAddr, AF_INET6),
+                cls._parsePort(sourcePort),
+            ),
+            address.IPv6Address(
+                "TCP",
+                cls._parseAddress(destAddr, AF_INET6),
+                cls._parsePort(destPort),
+            ),
         )
